@@ -237,3 +237,67 @@ func suiteC13Fault(c *Ctx) {
 }
 
 var _ tally.Scope = nil
+
+// c13big: "ids increasing with the bounds" at the size where the width of the id text changes - a histogram of 9999,
+// 10000 and 10001 bounds (the reporter adds the bucket that reaches up to infinity, so there is one bucket more than
+// bounds).  Samples are reported through the first bucket, the last finite one and the one reaching to infinity; the
+// bucket-id texts received must have one length and increase (as byte strings) with the bounds.
+func init() {
+	register("c13big", "C13", "", suiteC13Big)
+}
+
+func suiteC13Big(c *Ctx) {
+	c.Cov.Rule = "an M3 reporter (both protocols) with a value histogram of 9999 / 10000 / 10001 bounds (1e4 is where the bucket-id text needs a fifth digit); one sample each through the first bucket, the last finite bucket and the bucket reaching to infinity; oracle: the three bucket-id tag values received have one length and increase, as byte strings, with the bounds; every case nontrivial"
+	for _, p := range []m3.Protocol{m3.Compact, m3.Binary} {
+		for _, n := range []int{9999, 10000, 10001} {
+			sink := newM3Sink()
+			rep, err := m3.NewReporter(m3.Options{HostPorts: []string{sink.addr()}, Service: "svc", Env: "test", Protocol: p, MaxQueueSize: 64, MaxPacketSizeBytes: 1440})
+			must(err)
+			bs := make(tally.ValueBuckets, n)
+			for i := range bs {
+				bs[i] = float64(i + 1)
+			}
+			pairs := tally.BucketPairs(bs)
+			h := rep.AllocateHistogram("big", map[string]string{"k": "v"}, bs)
+			idx := []int{0, n - 1, n} // first, last finite, the one reaching to infinity
+			for k, i := range idx {
+				h.ValueBucket(pairs[i].LowerBoundValue(), pairs[i].UpperBoundValue()).ReportSamples(int64(k + 1))
+			}
+			rep.Flush()
+			rep.Close()
+			sink.settle(150*time.Millisecond, 5*time.Second)
+			ids := map[int64]string{}
+			proto := "c"
+			if p == m3.Binary {
+				proto = "b"
+			}
+			for _, pk := range sink.close() {
+				_, batch, err := goDecodeMessage(proto, pk)
+				if err != nil {
+					continue
+				}
+				for _, m := range batch.Metrics {
+					if m.Name != "big" {
+						continue
+					}
+					for _, t := range m.Tags {
+						if t.Name == "bucketid" {
+							ids[m.Value.Count] = t.Value // the last tag of that name
+						}
+					}
+				}
+			}
+			line := fmt.Sprintf("protocol=%s bounds=%d: samples through bucket 0, bucket %d and bucket %d", proto, n, n-1, n)
+			a, b, z := ids[1], ids[2], ids[3]
+			switch {
+			case a == "" || b == "" || z == "":
+				c.Cov.Fail(Failure{Kind: "violated", Clause: "delivery-exactly-once", Signature: "c13big-missing", Line: line, Reply: fmt.Sprintf("bucket ids received: %q %q %q", a, b, z)})
+			case len(a) != len(b) || len(b) != len(z) || !(a < b && b < z):
+				c.Cov.Fail(Failure{Kind: "violated", Clause: "bucket-ids-increase", Signature: "c13big-ids-do-not-increase", Line: line,
+					Reply: fmt.Sprintf("bucket ids of the first, the last finite and the last bucket: %q %q %q - not one length, or not increasing as byte strings", a, b, z)})
+			}
+			c.Cov.Eval(line, true)
+		}
+	}
+	c.Cov.Traces = c.Cov.Evaluations
+}
